@@ -225,6 +225,7 @@ func genC10Loop(t *rapid.T) C05Case {
 	}
 	c.ExcludedEmpty = lc.ExcludedEmpty
 	c.Force = rapid.SampledFrom([]int64{0, 0, int64(time.Hour), int64(15 * time.Millisecond), int64(60 * time.Millisecond)}).Draw(t, "force")
+	c.Pad = rapid.IntRange(0, 3).Draw(t, "pad") == 0
 	return c
 }
 
